@@ -189,6 +189,21 @@ fn main() {
                     m.extend(check_server_sized(sl, el, &bigpool));
                     m
                 }
+                Some("extblock") => {
+                    let block = unhex(c["block"].as_str().unwrap());
+                    let version = c["version"].as_u64().unwrap() as u16;
+                    let r32 = [5u8; 32];
+                    let mut out = Vec::new();
+                    let sh = TlsServerHelloContents::new(version, &r32, None, 0x1301, 0, Some(&block));
+                    if sh.get_version().0 != version {
+                        out.push(format!("TlsServerHelloContents::get_version() = {:#06x}, constructed with {:#06x}", sh.get_version().0, version));
+                    }
+                    let ch = TlsClientHelloContents::new(version, &r32, None, vec![], vec![], Some(&block));
+                    if ch.get_version().0 != version {
+                        out.push(format!("TlsClientHelloContents::get_version() = {:#06x}, constructed with {:#06x}", ch.get_version().0, version));
+                    }
+                    out
+                }
                 Some("server") => check_server(c["id"].as_u64().unwrap() as u16, &listed),
                 _ => machinery_failure(run.prop, "unknown replay kind"),
             };
@@ -293,6 +308,46 @@ fn main() {
         report(&mut sink, "constructed", "40000 ciphers".into(), m, json!({"kind":"constructed2","sid_len":33,"ext_len":0}));
     }
 
+    // (2c) extension blocks that are well-formed extension lists (every known extension, alone and in
+    //      pairs): the getters must still return the structure's own fields
+    let exts: Vec<Vec<u8>> = cat::known_extensions().into_iter().filter(|w| w.buf.len() < 400).map(|w| w.buf).collect();
+    let mut blocks: Vec<Vec<u8>> = exts.clone();
+    for a in exts.iter().step_by(3) {
+        for b in exts.iter().step_by(5) {
+            let mut x = a.clone();
+            x.extend_from_slice(b);
+            blocks.push(x);
+        }
+    }
+    let nblocks = blocks.len();
+    for (bi, block) in blocks.iter().enumerate() {
+        for version in [0x0303u16, 0x0301, 0x0304, 0x7f12] {
+            if bi % 4 != (version as usize) % 4 && bi > 200 {
+                continue;
+            }
+            let r = guarded(|| {
+                let mut out = Vec::new();
+                let sh = TlsServerHelloContents::new(version, &pool[..32], None, 0x1301, 0, Some(block));
+                if sh.get_version().0 != version || sh.version.0 != version {
+                    out.push(format!("TlsServerHelloContents::get_version() = {:#06x} for a hello constructed with version {:#06x} and extension block {}", sh.get_version().0, version, hexshort(block)));
+                }
+                if !same_opt(sh.ext, Some(block)) {
+                    out.push("ServerHello extension block not stored unchanged".into());
+                }
+                let ch = TlsClientHelloContents::new(version, &pool[..32], None, vec![], vec![], Some(block));
+                if ch.get_version().0 != version || ClientHello::version(&ch).0 != version {
+                    out.push(format!("ClientHello get_version()/version() = {:#06x} for version {:#06x} with extension block {}", ch.get_version().0, version, hexshort(block)));
+                }
+                out
+            })
+            .unwrap_or_else(|p| vec![format!("panic: {}", p)]);
+            sink.case(fnv(12, &[(bi >> 8) as u8, bi as u8, version as u8]), true);
+            sink.count("constructed (extension-bearing hellos)", if r.is_empty() { "ok" } else { "VIOLATION" });
+            report(&mut sink, "constructed", format!("ext block #{}", bi), r, json!({"kind":"extblock","block":hexs(block),"version":version}));
+        }
+    }
+    sink.bump("extension blocks", nblocks as u64);
+
     // (3) cipher lists covering all 65536 ids (256 lists of 256), through every list accessor
     let s3 = par_run(run.threads, 256, |k, sink| {
         let ids: Vec<u16> = (0..256u32).map(|lo| ((k as u32) << 8 | lo) as u16).collect();
@@ -315,7 +370,7 @@ fn main() {
     cov.insert("parsed_hellos".into(), json!(parsed));
     cov.insert("leading_random_words".into(), json!(nwords));
     cov.insert("rule".into(), json!(
-        "every ClientHello of the TLS and DTLS catalogues (parsed), constructed hellos with random slices of every length 0..=40 x 5 versions, session ids of 0..=48 / 255 / 256 / 300 bytes and extension blocks up to 70000 bytes (beyond the wire limits: constructors must not edit their arguments), a 40000-entry cipher list, leading random words over all single-bit patterns, boundaries and full 2^16 sweeps of the upper and of the lower half-word, cipher lists covering all 65536 ids, ServerHello::new / get_version / get_cipher for all 65536 ids; each trait accessor and helper compared with the structure's own fields (slices by pointer), rand_time / rand_bytes with the big-endian split, cipher_suites / get_ciphers / get_cipher with from_id and with the registry file. Non-trivial: every value"));
+        "every ClientHello of the TLS and DTLS catalogues (parsed), constructed hellos with random slices of every length 0..=40 x 5 versions, session ids of 0..=48 / 255 / 256 / 300 bytes and extension blocks up to 70000 bytes (beyond the wire limits: constructors must not edit their arguments), a 40000-entry cipher list, extension blocks that are well-formed extension lists (every known extension alone and in pairs, incl. supported_versions) under 4 versions, leading random words over all single-bit patterns, boundaries and full 2^16 sweeps of the upper and of the lower half-word, cipher lists covering all 65536 ids, ServerHello::new / get_version / get_cipher for all 65536 ids; each trait accessor and helper compared with the structure's own fields (slices by pointer), rand_time / rand_bytes with the big-endian split, cipher_suites / get_ciphers / get_cipher with from_id and with the registry file. Non-trivial: every value"));
     let code = run.finish(&sink, cov, vec!["rand_time / rand_bytes are only constrained for randoms of at least 4 bytes (shorter constructed values: no panic)".into()]);
     std::process::exit(code);
 }
